@@ -199,8 +199,8 @@ def variable_to_string(variable_type, var_value):
         try:
             # everything else just gets a string value
             return str(var_value)
-        except Exception:
-            # it is possible for str to fail if there is a custom __str__ function
+        except BaseException:
+            # it is possible for str to fail if there is a custom __str__ function (with any exception type)
             return f'{type(var_value)}@{id(var_value)}'
 
 
